@@ -54,10 +54,10 @@ re-verified on the unchanged tree over several `VERIF_SEED` values):
 
 `./selftest regressions` re-introduces each of the repaired defects alone (reverse patch on a scratch copy) and
 requires the owning check to report it again: all re-found in the quick tier. `./selftest sensitivity` applies a
-catalogue of 45 hand-written one-place mutants: all caught (two mutants of the first catalogue were replaced after
-analysis showed them equivalent for the property: keeping useless duplication rules cannot change emptiness, and the
-inverted chart-subsumption filter only prunes states that differ in features no constraint mentions when feature
-structures are flat). `./selftest determinism`: for every property and three `VERIF_SEED` values the per-hash-seed event
+catalogue of 46 hand-written one-place mutants: all caught (one mutant of the first catalogue was replaced and one re-qualified after
+analysis: keeping useless duplication rules cannot change emptiness (equivalent), and the
+inverted chart-subsumption filter is invisible on flat structures without re-entrancy but caught once one variable
+links two features -- the workload extension that also found defect FX-31). `./selftest determinism`: for every property and three `VERIF_SEED` values the per-hash-seed event
 digests of runs at 16, 4 and 7 workers (the last under a different parent PYTHONHASHSEED) are identical (54 of 54).
 `./selftest oracles`: every reference model agrees with a second, independent method on a seeded sample.
 '''
